@@ -1507,6 +1507,14 @@ impl Analyzable for Array
 				let element = element.analyze(typer);
 				let element_type = element.value_type();
 				typer.contextual_type = element_type.clone();
+				// Do not poison the element symbol with an element that was
+				// poisoned by an earlier pass over this function body, or the
+				// final pass stays silent about the conflict.
+				let element_type = match element_type
+				{
+					Some(Err(_poison)) => None,
+					other => other,
+				};
 				match typer.put_symbol(&name, element_type)
 				{
 					Ok(()) => element,
